@@ -461,8 +461,9 @@ fn c07_items(tier: Tier) -> Vec<C07Item> {
         }
     }
     pairs.extend([(147, 160), (160, 147), (44100, 48000), (48000, 8000)]);
+    pairs.extend([(96000, 44100), (11025, 48000)]);
     if !q {
-        pairs.push((44100, 44110));
+        pairs.extend([(44100, 44110), (192000, 44100), (22050, 16000), (32000, 44100), (37199, 39119), (48000, 44056), (44100, 176400), (8000, 44100)]);
     }
     // wider sweep of rate pairs with three requested sizes each (block-size arithmetic: gcd,
     // rounding of the block count, products that are not exact in floating point)
